@@ -91,7 +91,9 @@ class NearestBetterClustering:
 
     def _find_root_nodes(self) -> list[Node]:
         nodes = self.tree.all_nodes()
-        mean_distance = np.mean(self.distances)
+        distances = self.distances
+        # A single (truncated) individual has no nearest-better distances: it is the only seed.
+        mean_distance = np.mean(distances) if distances else 0.0
         correction_factor = 1 if not self.use_correction else self._get_correction_factor()
         return [
             node for node in nodes if node.data["distance"] > mean_distance * self.distance_factor * correction_factor
